@@ -96,7 +96,9 @@ pub fn clear_cbs() { unsafe { NCB = 0; CB_OVERFLOW = false; } }
 pub fn user_call(what: &'static str) {
     unsafe {
         USER_CALLS += 1;
-        if COUNTDOWN > 0 {
+        // user code that runs while the thread is already unwinding (destructors run by an expected panic, e.g. a rejected
+        // wrong-typed value) is never made to panic: a second panic there aborts any Rust program, whatever the library does
+        if COUNTDOWN > 0 && !std::thread::panicking() {
             COUNTDOWN -= 1;
             if COUNTDOWN == 0 {
                 COUNTDOWN = -1;
